@@ -13,7 +13,8 @@ ASSUMPTIONS = ["open findings F6b (non-blocking BUS send refused) and F7 (non-bl
 def queries(tier):
     def pred(sk, q):
         return sk.endswith(" Z") and bool(__import__("re").search(r",1\)", sk))
-    qs = _cross.pick(tier, pred, 14 if tier == "quick" else 100000, bus_excl=True)
+    prefer = (r"S\((\d),\d,1\).* R\(\1,\d,1\).* Z", r"R\((\d),\d,1\).* S\(\1,\d,1\).* Z", r"R\(\d,1\) R\(\d,1\).* Z", r"S\(\d,1\) S\(\d,1\).* Z")
+    qs = _cross.pick(tier, pred, 18 if tier == "quick" else 100000, bus_excl=True, prefer=prefer)
     def pred2(sk, q):
         return sk.endswith(" Z")
     names = set(q.name for q in qs)
@@ -21,6 +22,13 @@ def queries(tier):
         if q.name not in names:
             qs.append(q)
     qs += handle_queries(tier)
+    # an operation pending on a dialer (nng_dial / nng_dialer_start_aio) must be completed when the dial ends with a close, cancel or stop result
+    from props import C14, C02
+    for q in C14.queries(tier) + C02.queries(tier):
+        if q.name in ("dialer-connect-user-aio", "dialer-connect-any-result") or q.name.startswith("dialer-start-aio"):
+            q.group = "~" + q.group
+            if q.name not in set(x.name for x in qs):
+                qs.append(q)
     return qs
 
 
